@@ -1407,34 +1407,44 @@ def tags(case, replies):
             for t in _tok_tags([dec_str(x) for x in l.split()[1:]]):
                 yield t
 
-LEVEL_TEXT = ("Kernel-checked for all declaration lists, all histories of add_argument calls, both _no_log settings and the stated "
-              "argv shapes, on the model the driver executes: the documented declaration syntax is read back exactly (decl_syntax); "
+LEVEL_TEXT = ("Kernel-checked, on the Lean model the driver executes, for all declaration lists, all histories of successful "
+              "add_argument calls and both _no_log settings: (1) declaration syntax read back exactly (decl_syntax). (2) Graph: "
               "eager registration yields exactly the transitive closure of the declared parent relation in every reachable "
-              "state, and the one-pass registration the driver executes equals the code's parent-by-parent loop "
-              "(declare_follows_code); the constructor fails exactly on malformed lists, always with AssertionError (closure, build_ok_iff, "
-              "declare_order_irrelevant); a parser's option table / option strings are the standard ones plus those placed on "
-              "the ArgParser, on the parser or on an ancestor (options_iff, strings_iff, added_to_all); add_argument fails "
-              "only on a real clash or an unknown command (add_ok_iff); `[cmd, opt]` gives a namespace with the attribute "
-              "set iff the option is in the command's table, SystemExit(2) otherwise (parse_accepts, parse_rejects(_short)); "
-              "argparse's abbreviation rule composed with inheritance: a unique extension is read as that option whatever "
-              "follows, several extensions are an error anywhere before '--', accepts_iff is the exact criterion "
-              "(abbrev_unique, abbrev_ambiguous, accepts_iff); standard options accepted by every command with their "
-              "post-processing (-v -> 1, -vv..v -> its length, --no-color -> color False, --color -> None, no_color never returned; std_accepted, verbose_cluster); after `--` every word goes to the nargs='*' positional (dd_words); "
-              "default command = first public command, inserted for every first word that names no parser "
-              "(default_is_first_public, default_cmd_partial, command_dispatch); a second parse_args on the list object the "
-              "first call modified gives the same result, in both modes (parse_twice); _no_log_file / _help_if_no_args "
-              "(no_log_file_attr, help_if_no_args); a required option in the table makes the bare command exit (required_enforced; the acceptance theorems assume none); the single-command ArgParser (single_mode). Standard options (with and "
-              "without _no_log) and the first-argument test are regenerated from ak/cli_tools.py on every run. model = code by a "
-              "differential run (construction outcome, full namespace or SystemExit code per argv, the caller's list after the "
-              "call) and an oracle that computes ancestors from the declarations independently and states acceptance/rejection for exact option strings, -xyz clusters, --opt=value, '--' and words (declarations with plain ASCII blanks around parent names included; every option string judged separately, also when several options store into one attribute; no claim where an abbreviation is involved, about what --no-color does to `color`, about the caller's list, about the single-command parser).")
+              "state; the constructor fails exactly on malformed lists, always with AssertionError; parent order/repetition "
+              "irrelevant (closure, build_ok_iff, declare_order_irrelevant). declare_follows_code relates two LEAN definitions: "
+              "the executed one-pass `declare` equals the code-shaped parent-by-parent loop `declareByParent`; that the latter "
+              "is the Python loop rests on the correspondence. (3) Tables: a parser's specs / option strings are the standard "
+              "ones plus those placed on the ArgParser, on the parser or on an ancestor (options_iff, strings_iff, "
+              "added_to_all); add_argument fails only on a clash of option strings or an unknown command (add_ok_iff). "
+              "(4) Command lines with ONE option, for a public command whose table has no required option and no required "
+              "positional (`finishable`): ONE DIRECTION parse_accepts — an option string of the table gives a namespace with its "
+              "attribute set, for store_true / store_false / store_const / count (`[cmd, s]`) and value options (`[cmd, s, word]`); "
+              "parse_rejects(_short) — `[cmd, --t]` / `[cmd, -x]` is SystemExit(2) when NO option string of the table starts with "
+              "`--t` (resp. `-x` is not in the table); abbreviations: a unique extension is read as that option whatever follows "
+              "(abbrev_unique), several extensions are an error anywhere before '--' (abbrev_ambiguous). The only IFF is "
+              "accepts_iff: for `t = --name` such that every table option it could stand for is a store_true flag, `[cmd, t]` is "
+              "parsed iff t is a table string or has exactly one extension. (5) Standard options for such commands: accepted, "
+              "-v -> 1, -vv..v -> its length, --no-color -> color False, --color -> None, no_color never returned "
+              "(std_accepted, verbose_cluster); `-- w1 w2 ..` goes entirely to a lone nargs='*' positional (dd_words); a "
+              "required option in the table makes the bare command exit (required_enforced). (6) Default command: first "
+              "public command, inserted for every first word that names no parser (default_is_first_public, "
+              "default_cmd_partial, command_dispatch); a second parse_args on the list object the first call modified gives the "
+              "same result in both modes (parse_twice); no_log_file_attr, help_if_no_args, single_mode (--no-color only). "
+              "Standard options and the first-argument test are regenerated from ak/cli_tools.py on every run. Everything "
+              "else — in particular every command line with more than one option, value options without the iff, store_false/"
+              "store_const/count without a rejection converse beyond parse_rejects, positionals, '=' forms, clusters other "
+              "than -vv.. — is established by the correspondence only: a differential run of the compiled model against "
+              "the real code (construction outcome, full namespace or SystemExit code per argv, call sequences, sys.argv route) "
+              "plus an oracle that computes ancestors from the declarations independently and states acceptance/rejection per "
+              "option string (exact strings, -xyz, --opt=value, '--', words, required options; declarations with plain ASCII "
+              "blanks included; no claim where an abbreviation is involved, about what --no-color does to `color`, about the "
+              "caller's list, about the single-command parser).")
 LEVEL_NOTE = ("default_cmd is `_partial`: the code also keeps a first word that names an internal '!' option set (known finding "
               "c19b; internal_name_gap and default_cmd_internal_name_counterexample state the code's behaviour, "
-              "default_cmd_full_if_public_test the full statement under the two-line repair). Proved only through the "
-              "correspondence: -xyz clusters other than -vv.., attached values, '--' with other positionals, nargs forms and longer argv (kernel-evaluated "
-              "examples only), namespace contents beyond the one-option shapes, the single-command parser beyond --no-color. "
-              "Hypotheses kept: `finishable` (no required positional in the command's table) and no positional named like "
-              "a standard attribute. Trusted: Lean kernel, translator/adapter/oracle in harness/c19.py, sampled correspondence, "
-              "argparse itself.")
+              "default_cmd_full_if_public_test the full statement under the two-line repair). argparse's scan of one parser is a "
+              "modelled function whose agreement with the real argparse is sampled, not proved; model = Python likewise. "
+              "Hypotheses kept in the parse-level theorems: `finishable`, no positional named like the option's attribute, "
+              "attribute not color/no_color. Trusted: Lean kernel, translator/adapter/oracle in harness/c19.py, argparse.")
 TECHNIQUE = ("Lean 4 theorems (induction over the declaration list, transitive closure, option-table invariant over histories, "
              "argparse's token classifier as a specified function) + translator for the standard options and the first-argument "
              "test + correspondence check with call sequences")
